@@ -164,11 +164,16 @@ class MacroProcessor:
         Macro call syntax: ${name} or ${name arg1 arg2 ...}
         """
         max_iterations = 100  # Prevent infinite loops
+        # A macro that mentions itself twice doubles the text with every pass: bound the
+        # size as well, long before 100 passes could exhaust memory
+        max_size = max(1_000_000, 200 * len(content))
         iteration = 0
 
         while "${" in content and iteration < max_iterations:
             iteration += 1
             content = self._expand_once(content)
+            if len(content) > max_size:
+                raise ValueError("Macro expansion does not terminate (recursive macro definition?)")
 
         return content
 
